@@ -19,7 +19,13 @@
 #include <signal.h>
 #include <fcntl.h>
 #include <dirent.h>
+#include <sys/mman.h>
 #include "libconfig.h"
+#include "scanctx.h"
+#include "parsectx.h"
+#include "grammar.h"
+#include "scanner.h"
+#include "strvec.h"
 
 static FILE *out;
 static config_t cfg;
@@ -276,6 +282,138 @@ static void mkdirs_for(const char *path, int include_last)
     if(*q == '/') { *q = 0; mkdir(p, 0777); *q = '/'; }
   if(include_last) mkdir(p, 0777);
   free(p);
+}
+
+/* ---- fopen/fclose observation (linked with --wrap=fopen,--wrap=fclose) ---- */
+FILE *__real_fopen(const char *path, const char *mode);
+int __real_fclose(FILE *f);
+static int rec_io = 0;
+#define MAXOPEN 256
+static FILE *open_f[MAXOPEN];
+static char *open_p[MAXOPEN];
+FILE *__wrap_fopen(const char *path, const char *mode)
+{
+  FILE *f = __real_fopen(path, mode);
+  if(rec_io && f)
+  {
+    ev_hs("open", path);
+    for(int i = 0; i < MAXOPEN; i++)
+      if(!open_f[i]) { open_f[i] = f; open_p[i] = strdup(path); break; }
+  }
+  return f;
+}
+int __wrap_fclose(FILE *f)
+{
+  for(int i = 0; i < MAXOPEN; i++)
+    if(open_f[i] == f && f)
+    {
+      if(rec_io) ev_hs("close", open_p[i]);
+      free(open_p[i]);
+      open_f[i] = NULL;
+      open_p[i] = NULL;
+      break;
+    }
+  return __real_fclose(f);
+}
+static int count_open_tracked(void)
+{
+  int n = 0;
+  for(int i = 0; i < MAXOPEN; i++) if(open_f[i]) n++;
+  return n;
+}
+static int count_fds(void)
+{
+  int n = 0;
+  DIR *d = opendir("/proc/self/fd");
+  if(!d) return -1;
+  while(readdir(d)) n++;
+  closedir(d);
+  return n;
+}
+
+/* ---- stray output on stdout: fd 1 is a memfd; its content is reported after every op ---- */
+static int capfd = -1;
+static void cap_init(void)
+{
+  capfd = memfd_create("stdout-capture", 0);
+  if(capfd >= 0) { fflush(stdout); dup2(capfd, 1); }
+}
+static void cap_report(void)
+{
+  if(capfd < 0) return;
+  fflush(stdout);
+  off_t n = lseek(1, 0, SEEK_CUR);
+  if(n > 0)
+  {
+    char *b = (char *)malloc((size_t)n + 1);
+    ssize_t r = pread(1, b, (size_t)n, 0);
+    if(r > 0)
+    {
+      char *h = (char *)malloc(2 * (size_t)r + 16);
+      char *q = h + sprintf(h, "L stdout h");
+      for(ssize_t i = 0; i < r; i++) q += sprintf(q, "%02x", (unsigned char)b[i]);
+      ev_add(h);
+      free(h);
+    }
+    free(b);
+    if(ftruncate(1, 0) != 0) {}
+    lseek(1, 0, SEEK_SET);
+  }
+}
+
+/* ---- token-level access to the scanner ---- */
+static void do_lex(const char *txt)
+{
+  yyscan_t scanner;
+  struct scan_context scan_ctx;
+  YYSTYPE lval;
+  libconfig_scanctx_init(&scan_ctx, NULL);
+  scan_ctx.config = &cfg;
+  libconfig_yylex_init_extra(&scan_ctx, &scanner);
+  (void)libconfig_yy_scan_string(txt, scanner);
+  libconfig_yyset_lineno(1, scanner);
+  const char *res = "eof";
+  for(;;)
+  {
+    int t = libconfig_yylex(&lval, scanner);
+    int line = libconfig_yyget_lineno(scanner);
+    fputs("K ", out);
+    switch(t)
+    {
+      case 0: fputs("Z", out); break;
+      case TOK_BOOLEAN: fprintf(out, "b%d", lval.ival); break;
+      case TOK_INTEGER: fprintf(out, "i%d", lval.ival); break;
+      case TOK_INTEGER64: fprintf(out, "l%lld", lval.llval); break;
+      case TOK_HEX: fprintf(out, "x%d", lval.ival); break;
+      case TOK_HEX64: fprintf(out, "X%lld", lval.llval); break;
+      case TOK_FLOAT: fprintf(out, "f%016" PRIx64, double_to_bits(lval.fval)); break;
+      case TOK_STRING: fputc('s', out); put_hs(lval.sval); free(lval.sval); break;
+      case TOK_NAME: fputc('n', out); put_hs(lval.sval); break;
+      case TOK_EQUALS: fputs("p=", out); break;
+      case TOK_COMMA: fputs("p,", out); break;
+      case TOK_GROUP_START: fputs("p{", out); break;
+      case TOK_GROUP_END: fputs("p}", out); break;
+      case TOK_ARRAY_START: fputs("p[", out); break;
+      case TOK_ARRAY_END: fputs("p]", out); break;
+      case TOK_LIST_START: fputs("p(", out); break;
+      case TOK_LIST_END: fputs("p)", out); break;
+      case TOK_SEMICOLON: fputs("p;", out); break;
+      case TOK_GARBAGE: fputs("p?", out); break;
+      case TOK_ERROR: fputs("E", out); break;
+      default: fprintf(out, "?%d", t); break;
+    }
+    fprintf(out, " %d\n", line);
+    if(t == 0) break;
+    if(t == TOK_ERROR) { res = "err"; break; }
+  }
+  {
+    YY_BUFFER_STATE buf;
+    while((buf = (YY_BUFFER_STATE)libconfig_scanctx_pop_include(&scan_ctx)) != NULL)
+      libconfig_yy_delete_buffer(buf, scanner);
+  }
+  libconfig_yylex_destroy(scanner);
+  libconfig_strvec_delete(libconfig_scanctx_cleanup(&scan_ctx));
+  fprintf(out, "R %s\n", res);
 }
 
 /* ---- the interpreter ---- */
@@ -555,18 +693,38 @@ static int run_line(char *line)
   }
 
   /* ---- text I/O ---- */
+  if(n == 2 && IS("lex"))
+  {
+    char *txt = parse_hs(tok[1], NULL);
+    rec_io = 1;
+    do_lex(txt ? txt : "");
+    rec_io = 0;
+    evlen = 0;
+    free(txt);
+    return 0;
+  }
   if(n == 2 && IS("reads"))
   {
     char *txt = parse_hs(tok[1], NULL);
+    int fds = count_fds();
+    rec_io = 1;
     int r = config_read_string(&cfg, txt ? txt : "");
+    rec_io = 0;
     free(txt);
+    cap_report();
+    if(count_fds() != fds || count_open_tracked() != 0) ev_add("L FDLEAK");
     r_int(r); return 0;
   }
   if(n == 2 && IS("readf"))
   {
     char *path = parse_hs(tok[1], NULL);
+    int fds = count_fds();
+    rec_io = 1;
     int r = config_read_file(&cfg, path);
+    rec_io = 0;
     free(path);
+    cap_report();
+    if(count_fds() != fds || count_open_tracked() != 0) ev_add("L FDLEAK");
     r_int(r); return 0;
   }
   if(n == 2 && IS("readst"))
@@ -576,11 +734,17 @@ static int run_line(char *line)
     char *txt = parse_hs(tok[1], &len);
     FILE *f = fmemopen(txt, len ? len : 1, "r");
     if(!len) { fclose(f); f = fopen("/dev/null", "r"); }
+    int fds = count_fds();
+    rec_io = 1;
     int r = config_read(&cfg, f);
+    rec_io = 0;
     long pos = ftell(f);
     int cr = fclose(f);
     free(txt);
-    fprintf(out, "R i%d stream=%s\n", r, (pos >= 0 && cr == 0) ? "ok" : "BAD");
+    cap_report();
+    if(count_fds() != fds - 1 || count_open_tracked() != 0) ev_add("L FDLEAK");
+    if(!(pos >= 0 && cr == 0)) ev_add("L STREAMBAD");
+    r_int(r);
     return 0;
   }
   if(n == 1 && IS("write"))
@@ -644,8 +808,9 @@ int main(int argc, char **argv)
 {
   if(argc < 2) { fprintf(stderr, "usage: drv script [workdir]\n"); return 2; }
   const char *fdenv = getenv("DRV_OUT_FD");
-  out = fdenv ? fdopen(atoi(fdenv), "w") : stdout;
+  out = fdenv ? fdopen(atoi(fdenv), "w") : fdopen(dup(1), "w");
   if(!out) { perror("out"); return 2; }
+  cap_init();
 
   FILE *sf = fopen(argv[1], "r");
   if(!sf) { perror(argv[1]); return 2; }
